@@ -172,6 +172,23 @@ def modifier_table(pred=None):
     return jobs
 
 
+def per_key(keys, pred=None, maxheld=2):
+    """One small layout per key name the tool knows, with the key as an output of a no-repeat mapping, behind a modifier, as a trigger and as
+    a repeat key (and, for the absorbing families, next to an absorbing chord): tables or bit tricks indexed by key code (which keys are
+    modifiers, which are action keys) show only for particular codes among several hundred."""
+    jobs = []
+    for K in keys:
+        if K in ("A", "B", "C", "D", "E", "LEFTSHIFT"):
+            continue
+        lay = [M(["A"], [K], D), M(["B"], ["LEFTSHIFT", K]), M(["C", K], ["D"], S([K]))]
+        if pred is not None and not pred(lay):
+            lay = [M(["LEFTSHIFT", "A"], [K], N, ["LEFTSHIFT"]), M(["LEFTSHIFT", K], ["D"])]
+            if not pred(lay):
+                continue
+        jobs.append({"id": "key-%s" % K, "layout": lay, "keys": ["A", "B", "C", K, "LEFTSHIFT"], "maxheld": maxheld})
+    return jobs
+
+
 def small_n4(tag, pred, n):
     """n three-mapping layouts of the small family explored with FOUR keys held (some defects need a fourth key)"""
     base = small_family(tag, pred, 0, n, None, 0, 0, ones=False)
